@@ -225,7 +225,7 @@ package cache
 //@   prop C06, C13
 //@   opaque TotalWeights, Fatal, NewNode, NewRedis, NewConsistentHash, AddWithWeight
 //@   loop 1 invariant -1 <= rangeindex
-//@   loop 1 iteration-ensures [node-added-with-its-weight] calls(NewNode) == 1 && arg(NewNode, 0) == ret(NewRedis) && arg(NewNode, 1) == barrier && arg(NewNode, 3) == errNotFound && calls(dispatcher.AddWithWeight) == 1 && arg(dispatcher.AddWithWeight, 1) == ret(NewNode) && arg(dispatcher.AddWithWeight, 2) == at_head(c[rangeindex + 1]).Weight
-//@   ensures [single-node] len(c) == 1 ==> calls(NewNode) == 1 && result == ret(NewNode) && calls(NewConsistentHash) == 0
+//@   loop 1 iteration-ensures [node-added-with-its-weight] calls(NewNode) == 1 && arg(NewNode, 0) == ret(NewRedis) && arg(NewNode, 1) == barrier && arg(NewNode, 2) == st && arg(NewNode, 3) == errNotFound && arg(NewNode, 4) == opts && calls(dispatcher.AddWithWeight) == 1 && arg(dispatcher.AddWithWeight, 1) == ret(NewNode) && arg(dispatcher.AddWithWeight, 2) == at_head(c[rangeindex + 1]).Weight
+//@   ensures [single-node] len(c) == 1 ==> calls(NewNode) == 1 && result == ret(NewNode) && calls(NewConsistentHash) == 0 && arg(NewNode, 4) == opts && arg(NewNode, 1) == barrier && arg(NewNode, 3) == errNotFound
 //@   ensures [cluster-over-the-dispatcher] len(c) > 1 ==> typeis(result, cluster) && unbox(result, cluster).dispatcher == ret(hash.NewConsistentHash) && unbox(result, cluster).errNotFound == errNotFound
 //@   ensures [unconfigured-is-fatal] len(c) == 0 ==> calls(log.Fatal) >= 1
